@@ -59,7 +59,7 @@ def exc_issub(cls, target):
 
 
 _MODELLED_EXC = (ValueError, TypeError, KeyError, IndexError, AttributeError, LookupError, ZeroDivisionError,
-                 OverflowError, StopIteration)
+                 OverflowError, StopIteration, __import__('struct').error, __import__('decimal').InvalidOperation)
 
 
 class Scope(dict):
